@@ -96,3 +96,19 @@ Definition cap_row_ok (row : Z * Z * Z * Z * Z * Z) : bool :=
     end
   end.
 Definition pow2_row_ok (row : Z * Z) : bool := Z.eqb (snd row) (round_cap (fst row) mod 2 ^ 32).
+
+(* field widths the model relies on (ids as printed by harness/drivers/c01_dispatch.c):
+   muggle_channel_t: capacity (0), write_cursor (1), read_cursor (2), cached_r_cur (3) and the write
+   synclock word (4) are muggle_sync_t = unsigned 32-bit (the futex word; the model's cursors range
+   over [0, capacity) with capacity <= 2^31, every arithmetic step is reduced mod capacity, so a
+   narrower field would truncate a cursor the model keeps exact, and the cached read cursor is
+   compared for EQUALITY with a write position);
+   array blocking queue: capacity (10), take_idx (11), put_idx (12), cnt (13) are int;
+   double buffer: capacity (20), single buffer cnt (21), non_blocking (22) are int;
+   slot elements (30, 31, 32) hold a pointer *)
+Definition model_field_widths : list (nat * Z * bool * bool) :=
+  [(0%nat, 4, false, true); (1%nat, 4, false, true); (2%nat, 4, false, true); (3%nat, 4, false, true);
+   (4%nat, 4, false, true);
+   (10%nat, 4, true, true); (11%nat, 4, true, true); (12%nat, 4, true, true); (13%nat, 4, true, true);
+   (20%nat, 4, true, true); (21%nat, 4, true, true); (22%nat, 4, true, true);
+   (30%nat, 8, false, false); (31%nat, 8, false, false); (32%nat, 8, false, false)].
